@@ -158,3 +158,19 @@ def is_valid_total_v1(y: int, m: int, b: int, k: int) -> bool:
     text = "v" + str(y) + ("0" if m < 10 else "") + str(m) + "." + str(b) + ["", "-beta", "-x"][k]
     got = v1version.is_valid(text, "{pycalver}")
     return got is True or got is False
+
+
+def junk_tag_symbolic(t: str, a0: int, b0: int, scope: int) -> bool:
+    """a tag of arbitrary short text that does not match the pattern (no text of <= 2 characters matches MAJOR.MINOR[.PATCH])
+    never influences or breaks the result
+    pre: len(t) <= 2 and 0 <= a0 <= 9 and 0 <= b0 <= 9 and 0 <= scope <= 2
+    post: _
+    """
+    cfg = _cfg(_render(a0, b0, 0), SCOPES[scope])
+    saved = vcs.get_tags
+    vcs.get_tags = lambda fetch, scope: [t, "1", t + t]
+    try:
+        got = cli._update_cfg_from_vcs(cfg, False)
+    finally:
+        vcs.get_tags = saved
+    return got is cfg   # neither t, "1" nor t + t (a doubled 2-character text has no 'digits.digits' shape) matches the pattern
